@@ -33,6 +33,8 @@ func devMain(args []string) {
 	work := fs.String("work", "/verif/work/dev", "work dir")
 	timeout := fs.Int("timeout", 10, "solver timeout (s)")
 	verbose := fs.Bool("v", false, "verbose")
+	onlyObl := fs.String("obl", "", "show details for obligations containing this")
+	extraReq := fs.String("assume", "", "extra requires clause (development only)")
 	fs.Parse(args)
 	t0 := time.Now()
 	prog, err := LoadProgram(*repo, strings.Split(*pkgs, ","), "/verif/contracts/extern")
@@ -54,6 +56,14 @@ func devMain(args []string) {
 			continue
 		}
 		t1 := time.Now()
+		if *extraReq != "" {
+			e, err := ParseExpr(*extraReq)
+			if err != nil {
+				fmt.Println("bad --assume:", err)
+				os.Exit(2)
+			}
+			c.Requires = append(c.Requires, &Clause{Text: *extraReq, Expr: e, Ordinal: 99})
+		}
 		r := prog.verifyFunc(name, c)
 		fmt.Printf("%s: %d obligations, %d paths, %.2fs\n", name, len(r.Obligations), r.Paths, time.Since(t1).Seconds())
 		for _, f := range r.Fatal {
@@ -101,11 +111,19 @@ func devMain(args []string) {
 				}
 			} else {
 				fmt.Printf("  FAIL %s  [%s]\n", n, byName[n][0].Clause)
+				nf := 0
 				for _, o := range byName[n] {
 					if o.Status != "unsat" {
-						fmt.Printf("       %s %s at %s file %s\n", o.Status, o.Solver, o.Where, o.File)
+						nf++
+						if *onlyObl != "" && strings.Contains(n, *onlyObl) {
+							fmt.Printf("       %s %s at %s file %s\n", o.Status, o.Solver, o.Where, o.File)
+							for _, t := range o.Trace {
+								fmt.Printf("           %s\n", t)
+							}
+						}
 					}
 				}
+				fmt.Printf("       %d of %d paths fail\n", nf, len(byName[n]))
 			}
 		}
 	}
